@@ -471,18 +471,29 @@ inductive ScaleArg where
   | none | true | num (s : Q)
   deriving Repr
 
-/-- the loop of `hist_to_graph` over `iter_bins_with_edges`.  `makeValue` stands for `make_value` followed by
-the conversion of its result to a tuple (`none`: the bin content itself).  A bin that is a list is outside the
-model. -/
+/-- `graph_value`: the bin content, or `make_value(content)`, as a tuple (`if not hasattr(graph_value, "__iter__"):
+graph_value = (graph_value,)`).  `makeValue` stands for `make_value` followed by that conversion. -/
+def graphValue (makeValue : Option (Q → List Q)) (value : Q) : List Q :=
+  match makeValue with
+  | none => [value]
+  | some f => f value
+
+/-- the loop of `hist_to_graph` over `iter_bins_with_edges`.  A bin that is a list is outside the model. -/
 def graphLoop (mode : CoordMode) (makeValue : Option (Q → List Q)) :
     List (NArr Q × List (Q × Q)) → List (List Q) → Except Err (List (List Q))
   | [], coords => .ok coords
   | (.leaf value, edges) :: rest, coords =>
-    let graphValue := match makeValue with
-      | none => [value]
-      | some f => f value
-    graphLoop mode makeValue rest (appendRow coords (getCoord mode edges ++ graphValue))
+    graphLoop mode makeValue rest (appendRow coords (getCoord mode edges ++ graphValue makeValue value))
   | (.node _, _) :: _, _ => .error .unmodelled
+
+/-- `if scale is True: scale = hist.scale()` (hist_functions.py:366-367): the histogram (its scale is stored by
+`scale()`) and the scale of the graph -/
+def resolveScale (h : Hist) : ScaleArg → Except Err (Hist × Option Q)
+  | .none => .ok (h, none)
+  | .num s => .ok (h, some s)
+  | .true => do
+    let (h1, s) ← getScale h false
+    pure (h1, some s)
 
 /-- `hist_to_graph(hist, make_value, get_coordinate, field_names, scale)` (hist_functions.py:299-391).
 Returns the histogram too: `scale=True` stores the computed scale in it. -/
@@ -491,15 +502,9 @@ def histToGraph (h : Hist) (makeValue : Option (Q → List Q)) (mode : CoordMode
   if mode = .bad then .error .lenaValueError
   else do
     let names ← fieldNamesTuple fieldNames
-    let coords : List (List Q) := names.map (fun _ => [])
-    let (h1, sc) ← match scale with
-      | .none => pure (h, none)
-      | .num s => pure (h, some s)
-      | .true => do
-        let (h1, s) ← getScale h false
-        pure (h1, some s)
+    let (h1, sc) ← resolveScale h scale
     let cells ← iterBinsWithEdges h1.bins h1.edges
-    let coords ← graphLoop mode makeValue cells coords
+    let coords ← graphLoop mode makeValue cells (names.map (fun _ => []))
     let g ← mkGraph coords (.tuple names) sc
     pure (h1, g)
 
